@@ -209,7 +209,10 @@ pub fn rec_optval(args: &Args) {
                 }
                 5 => {
                     let len = *r.pick(&[0usize, 1, 2, 3, 4, 5, 8, 9]);
-                    let b = r.bytes(len);
+                    let mut b = r.bytes(len);
+                    if num == 12 && r.chance(1, 2) {
+                        b = r.pick(&[&[][..], &[0][..], &[50][..], &[0, 50][..], &[41][..], &[1, 2, 3][..], &[0, 0, 50][..], &[45, 22][..]]).to_vec();
+                    }
                     p.add_option(CoapOption::from(num), b.clone());
                     ("add_option", json!({"num": num, "v": jbytes(&b)}))
                 }
@@ -222,7 +225,8 @@ pub fn rec_optval(args: &Args) {
             let (typed, obs) = typed_proj(&p, &nums, vw);
             let enc = crate::wire::out_to_bytes(&p, Some(None));
             let dec = if enc["k"] == "ok" { crate::wire::out_from_bytes(&vbytes(&enc["bytes"])).0 } else { json!({"k": "na"}) };
-            out.ev(json!({"op": "call", "f": f, "a": a, "panicked": false, "st": jpkt(&p), "enc": enc, "dec": dec, "typed": typed, "obs": obs}));
+            let cf = match p.get_content_format() { None => json!({"some": false}), Some(c) => json!({"some": true, "id": usize::from(c)}) };
+            out.ev(json!({"op": "call", "f": f, "a": a, "panicked": false, "st": jpkt(&p), "enc": enc, "dec": dec, "typed": typed, "obs": obs, "cf": cf}));
         }
     }
     let n = out.finish();
